@@ -56,5 +56,10 @@ func renameFile(src, dst string) error {
 	if err := os.Rename(src, dst); err != nil {
 		return errors.Wrapf(err, "failed to rename %s to %s", src, dst)
 	}
+	// rename(2) does nothing when both names already are links to one inode:
+	// the temporary name must not stay behind
+	if err := os.Remove(src); err != nil && !os.IsNotExist(err) {
+		return errors.Wrapf(err, "failed to remove %s", src)
+	}
 	return nil
 }
